@@ -87,7 +87,8 @@ impl Vm {
   fn to_call_result(&self, execute_result: ExecutionResult) -> Call {
     match execute_result {
       ExecutionResult::Ok(value) => Call::Ok(value),
-      ExecutionResult::Exit(_) => self.internal_error("Accidental early exit in hook call"),
+      // exit() was called in the callback, the native hands it on to its own caller
+      ExecutionResult::Exit(code) => Call::Err(LyError::Exit(code)),
       ExecutionResult::CompileError => {
         self.internal_error("Compiler error should occur before code is executed.")
       },
